@@ -1,18 +1,53 @@
 import PGM.Model.RegionGraph
 import PGM.Proofs.RealScalar
 import PGM.Proofs.Factor
+import PGM.Proofs.ConvexFactor
+import PGM.Proofs.ConvexSweep
+import PGM.Proofs.ConvexBuild
 import Mathlib.Analysis.SpecialFunctions.Log.Basic
+import Mathlib.Algebra.BigOperators.Group.Finset.Basic
+import Mathlib.Algebra.BigOperators.Group.Finset.Sigma
 /-!
-# The convex region-graph oracle: primal–dual certificate (statements for C17), real instance
+# The convex region-graph oracle: primal–dual certificate (C17), real instance
 
 `F(q) = Σ_r ⟨θ_r, q_r⟩ + Σ_r H(q_r)` (`RG.primalValue`), `D(λ) = total · Σ_r logsumexp(θ̃_r(λ))`
 (`RG.dualValue`), beliefs `b_r(λ) = total · softmax(θ̃_r(λ))` (`RG.lagrangianBeliefs`).
+
+Main results (all over `realScalar`):
+
+* `weak_duality`            `F(q) ≤ D(λ)` for every locally consistent `q` and every `λ`;
+* `gap_bound`               the gap certificate;
+* `strong_at_consistency`   if `b(λ)` is locally consistent then `F(b(λ)) = D(λ)` and `b(λ)` is optimal;
+* `unique_at_zero_gap`      a locally consistent `q` with `F(q) = D(λ)` *is* `b(λ)` (strict Gibbs);
+* `belief_lagrangian_form`  the beliefs returned by a sweep are `b(λ)` for the returned messages;
+* `shape_preserved(_iterate)`, `initMessages_shape`  the hypotheses are an invariant of the sweeps
+  and hold initially; `build_shape`: they hold for every graph of `RG.build` (proved in
+  `ConvexBuild.lean` from assumptions on the *inputs* only);
+* `hps_certificate`         all of the above for the output of `RG.hps` as run;
+* `shape_ab`, `lc_ab`       non-vacuity.
+
+Three statements were false as first written; each is corrected with the minimal extra hypothesis
+and the counterexample is recorded:
+
+* `weak_duality` (and its corollaries) need `parents_nodup`: `parents_dual` only speaks about
+  *membership*, so a parent listed twice in `look g.parents r` subtracts its multiplier twice from
+  `θ̃_r` while it is added only once to `θ̃_p`; the dual value can then be driven to `−∞`
+  (`weak_duality_needs_parents_nodup`, stated for `Shape₀` = the original hypotheses).  `parentsOf`
+  builds the lists from a duplicate-free edge list, so the hypothesis holds for every graph produced
+  by `RG.build` (`build_ok`).
+* `belief_lagrangian_form` needs `g.regions.Nodup`: the model's beliefs are a dictionary (one entry
+  per key), `lagrangianBeliefs` is a `map` (`belief_lagrangian_form_needs_nodup`).
+* `Shape` alone is not preserved by a sweep (`shape_not_preserved_without_down`): the upward update
+  reads the downward messages, so their layout (`MsgsDown`) is part of the invariant.
 -/
 namespace PGM.Convex
-open PGM PGM.JT PGM.RG
+open PGM PGM.JT PGM.RG PGM.Sem
+set_option linter.unusedSectionVars false
+set_option linter.unusedVariables false
 
-/-- the potentials and messages are laid out on the regions' domains -/
-structure Shape (dom : Dom) (g : RG.Graph) (pot : Region → Factor ℝ) (msgs : Msgs ℝ) : Prop where
+/-- the hypotheses of the original statement: the potentials and messages are laid out on the
+regions' domains.  NOT sufficient for weak duality: `weak_duality_needs_parents_nodup`. -/
+structure Shape₀ (dom : Dom) (g : RG.Graph) (pot : Region → Factor ℝ) (msgs : Msgs ℝ) : Prop where
   dom_wf : dom.WF
   sizes : ∀ p ∈ dom, 0 < p.2
   regions_nodup : g.regions.Nodup
@@ -24,6 +59,13 @@ structure Shape (dom : Dom) (g : RG.Graph) (pot : Region → Factor ℝ) (msgs :
   msg_ok : ∀ p ∈ g.regions, ∀ c ∈ look g.children p,
     (msgs.get (c, p)).WF ∧ (msgs.get (c, p)).dom = dom.project c
 
+/-- the potentials and messages are laid out on the regions' domains -/
+structure Shape (dom : Dom) (g : RG.Graph) (pot : Region → Factor ℝ) (msgs : Msgs ℝ) : Prop
+    extends Shape₀ dom g pot msgs where
+  /-- ADDED (the statements are false without it, see `weak_duality_needs_parents_nodup`): no parent
+  is listed twice.  Holds for `RG.build`: `parentsOf` filters a duplicate-free edge list. -/
+  parents_nodup : ∀ r ∈ g.regions, (look g.parents r).Nodup
+
 /-- a family of tables that is feasible for the relaxed problem: one nonnegative table of mass
 `T` per region, consistent along every region-graph edge -/
 structure LocallyConsistent (dom : Dom) (g : RG.Graph) (T : ℝ) (q : CliqueVec ℝ) : Prop where
@@ -34,12 +76,276 @@ structure LocallyConsistent (dom : Dom) (g : RG.Graph) (T : ℝ) (q : CliqueVec 
   edges : ∀ p ∈ g.regions, ∀ c ∈ look g.children p,
     ((q.get p).projectSum c).datavector = (q.get c).datavector
 
-/-- the returned beliefs depend on the messages only through the upward messages and are
-`total · softmax(θ̃_r)`: the model's last step of every sweep *is* `lagrangianBeliefs` (unit counting numbers) -/
-theorem belief_lagrangian_form (g : RG.Graph) (pot : Region → Factor ℝ) (T rho : ℝ) (msgs : Msgs ℝ) :
-    (hpsSweep g pot (fun _ => 1) T rho msgs).2.map (fun p => (p.1, p.2.datavector))
-      = (lagrangianBeliefs g pot T (hpsSweep g pot (fun _ => 1) T rho msgs).1).map (fun p => (p.1, p.2.datavector)) := by
-  sorry
+/-! ## readings of the model's objective functions -/
+
+theorem primalValue_eq (g : RG.Graph) (pot : Region → Factor ℝ) (T : ℝ) (q : CliqueVec ℝ) :
+    primalValue g pot T q = (g.regions.map (fun r => ((pot r).mul (q.get r)).sumAll)).sum
+      + (g.regions.map (fun r => entropy T (q.get r))).sum := by
+  unfold primalValue
+  rw [rsum_eq, rsum_eq]
+  rfl
+
+theorem dualValue_eq (g : RG.Graph) (pot : Region → Factor ℝ) (T : ℝ) (msgs : Msgs ℝ) :
+    dualValue g pot T msgs
+      = T * (g.regions.map (fun r => (thetaTilde g pot msgs r).logsumexpAll)).sum := by
+  unfold dualValue
+  rw [rsum_eq]
+  rfl
+
+/-! ## consequences of `Shape` -/
+
+section shape
+variable {dom : Dom} {g : RG.Graph} {pot : Region → Factor ℝ} {msgs : Msgs ℝ}
+
+theorem Shape₀.regOK (hs : Shape₀ dom g pot msgs) {r : Region} (hr : r ∈ g.regions) : RegOK dom r :=
+  hs.region_ok r hr
+
+theorem Shape₀.pot_on (hs : Shape₀ dom g pot msgs) {r : Region} (hr : r ∈ g.regions) : On dom r (pot r) :=
+  hs.pot_ok r hr
+
+/-- the upward message on the edge `(c, p)` is a table on `c` -/
+theorem Shape₀.msg_on (hs : Shape₀ dom g pot msgs) {p c : Region} (hp : p ∈ g.regions)
+    (hc : c ∈ look g.children p) : On dom c (msgs.get (c, p)) :=
+  hs.msg_ok p hp c hc
+
+theorem Shape₀.child_mem (hs : Shape₀ dom g pot msgs) {p c : Region} (hp : p ∈ g.regions)
+    (hc : c ∈ look g.children p) : c ∈ g.regions := (hs.children_sub p hp c hc).1
+
+/-- `θ̃_r` is a table on `r`, cell-wise `θ_r + Σ_c λ_{(c,r)} − Σ_p λ_{(r,p)}` -/
+theorem thetaTilde_on (hs : Shape₀ dom g pot msgs) {r : Region} (hr : r ∈ g.regions) :
+    On dom r (thetaTilde g pot msgs r) ∧
+      ∀ σ, dom.Valid σ → (thetaTilde g pot msgs r).sem σ
+        = (pot r).sem σ + ((look g.children r).map (fun c => (msgs.get (c, r)).sem σ)).sum
+          - ((look g.parents r).map (fun p => (msgs.get (r, p)).sem σ)).sum := by
+  have h1 : ∀ f ∈ (look g.children r).map (fun c => msgs.get (c, r)), Sub dom r f := by
+    intro f hf
+    obtain ⟨c, hc, rfl⟩ := List.mem_map.mp hf
+    exact ((hs.msg_on hr hc).sub (hs.regOK (hs.child_mem hr hc))).mono (hs.children_sub r hr c hc).2
+  have h2 : ∀ f ∈ (look g.parents r).map (fun p => msgs.get (r, p)), Sub dom r f := by
+    intro f hf
+    obtain ⟨p, hp, rfl⟩ := List.mem_map.mp hf
+    obtain ⟨hpR, hrc⟩ := (hs.parents_dual r hr p).mp hp
+    exact (hs.msg_on hpR hrc).sub (hs.regOK hr)
+  obtain ⟨a, b⟩ := theta_ok hs.dom_wf (hs.regOK hr) (pot r) _ _ (hs.pot_on hr) h1 h2
+  refine ⟨a, ?_⟩
+  intro σ hσ
+  have := b σ hσ
+  rw [List.map_map, List.map_map] at this
+  exact this
+
+end shape
+
+/-! ## the multiplier terms telescope -/
+
+/-- double counting over the edge set, from the children side and from the parents side -/
+theorem edge_sum_swap (R : List Region) (ch par : Region → List Region) (E : Region → Region → ℝ)
+    (hR : R.Nodup) (hch : ∀ p ∈ R, (ch p).Nodup) (hpar : ∀ c ∈ R, (par c).Nodup)
+    (hsub : ∀ p ∈ R, ∀ c ∈ ch p, c ∈ R)
+    (hdual : ∀ c ∈ R, ∀ p, p ∈ par c ↔ (p ∈ R ∧ c ∈ ch p)) :
+    (R.map (fun p => ((ch p).map (fun c => E c p)).sum)).sum
+      = (R.map (fun c => ((par c).map (fun p => E c p)).sum)).sum := by
+  rw [← List.sum_toFinset _ hR, ← List.sum_toFinset _ hR]
+  have e1 : ∀ p ∈ R.toFinset, ((ch p).map (fun c => E c p)).sum = ∑ c ∈ (ch p).toFinset, E c p := by
+    intro p hp
+    rw [List.sum_toFinset _ (hch p (List.mem_toFinset.mp hp))]
+  have e2 : ∀ c ∈ R.toFinset, ((par c).map (fun p => E c p)).sum = ∑ p ∈ (par c).toFinset, E c p := by
+    intro c hc
+    rw [List.sum_toFinset _ (hpar c (List.mem_toFinset.mp hc))]
+  rw [Finset.sum_congr rfl e1, Finset.sum_congr rfl e2]
+  apply Finset.sum_comm'
+  intro p c
+  simp only [List.mem_toFinset]
+  constructor
+  · rintro ⟨hp, hc⟩
+    have hcR := hsub p hp c hc
+    exact ⟨(hdual c hcR p).mpr ⟨hp, hc⟩, hcR⟩
+  · rintro ⟨hp, hc⟩
+    exact (hdual c hc p).mp hp
+
+theorem sum_map_add3 {ι : Type} (l : List ι) (A B C : ι → ℝ) :
+    (l.map (fun i => A i + B i - C i)).sum = (l.map A).sum + ((l.map B).sum - (l.map C).sum) := by
+  rw [sum_map_sub, List.sum_map_add]
+  ring
+
+section telescope
+variable {dom : Dom} {g : RG.Graph} {pot : Region → Factor ℝ} {msgs : Msgs ℝ} {T : ℝ} {q : CliqueVec ℝ}
+
+theorem LocallyConsistent.on (hq : LocallyConsistent dom g T q) {r : Region} (hr : r ∈ g.regions) :
+    On dom r (q.get r) := hq.table_ok r hr
+
+/-- `⟨θ̃_r, q_r⟩` expanded, with every multiplier term already moved to the child of its edge -/
+theorem tilde_inner_region (hs : Shape₀ dom g pot msgs) (hq : LocallyConsistent dom g T q)
+    {r : Region} (hr : r ∈ g.regions) :
+    S dom r (fun τ => (thetaTilde g pot msgs r).sem τ * (q.get r).sem τ)
+      = S dom r (fun τ => (pot r).sem τ * (q.get r).sem τ)
+        + ((look g.children r).map (fun c =>
+            S dom c (fun τ => (msgs.get (c, r)).sem τ * (q.get c).sem τ))).sum
+        - ((look g.parents r).map (fun p =>
+            S dom r (fun τ => (msgs.get (r, p)).sem τ * (q.get r).sem τ))).sum := by
+  obtain ⟨_, hsem⟩ := thetaTilde_on hs hr
+  have e1 : S dom r (fun τ => (thetaTilde g pot msgs r).sem τ * (q.get r).sem τ)
+      = S dom r (fun τ => ((pot r).sem τ * (q.get r).sem τ
+          + ((look g.children r).map (fun c => (msgs.get (c, r)).sem τ * (q.get r).sem τ)).sum)
+          - ((look g.parents r).map (fun p => (msgs.get (r, p)).sem τ * (q.get r).sem τ)).sum) := by
+    apply S_congr dom hs.dom_wf hs.sizes
+    intro τ hτ
+    rw [hsem τ hτ, List.sum_map_mul_right, List.sum_map_mul_right]
+    ring
+  rw [e1, S_sub, S_add, S_sum, S_sum]
+  congr 2
+  congr 1
+  apply List.map_congr_left
+  intro c hc
+  have hcR := hs.child_mem hr hc
+  exact S_parent_child hs.dom_wf hs.sizes (hs.regOK hr) (hs.regOK hcR) (hs.children_sub r hr c hc).2
+    ((hs.msg_on hr hc).sub (hs.regOK hcR)) (hq.on hr) (hq.on hcR) (hq.edges r hr c hc)
+
+/-- **the multiplier terms telescope on consistent `q`**: `Σ_r ⟨θ̃_r, q_r⟩ = Σ_r ⟨θ_r, q_r⟩` -/
+theorem tilde_inner_sum (hs : Shape dom g pot msgs) (hq : LocallyConsistent dom g T q) :
+    (g.regions.map (fun r => S dom r (fun τ => (thetaTilde g pot msgs r).sem τ * (q.get r).sem τ))).sum
+      = (g.regions.map (fun r => S dom r (fun τ => (pot r).sem τ * (q.get r).sem τ))).sum := by
+  rw [List.map_congr_left (fun r hr => tilde_inner_region hs.toShape₀ hq hr), sum_map_add3]
+  have := edge_sum_swap g.regions (look g.children) (look g.parents)
+    (fun c p => S dom c (fun τ => (msgs.get (c, p)).sem τ * (q.get c).sem τ))
+    hs.regions_nodup hs.children_nodup hs.parents_nodup
+    (fun p hp c hc => hs.child_mem hp hc) hs.parents_dual
+  rw [this]
+  ring
+
+end telescope
+
+/-! ## Gibbs' inequality on a region -/
+
+section gibbs
+variable {dom : Dom} {r : Region}
+
+/-- `⟨θ, q⟩ + H(q) ≤ T · logsumexp θ` for a nonnegative table `q` of mass `T` -/
+theorem gibbs_region (hr : RegOK dom r) {th qf : Factor ℝ} (hth : On dom r th) (hq : On dom r qf)
+    {T : ℝ} (hT : 0 < T) (hnn : ∀ v ∈ qf.datavector, 0 ≤ v) (hm : qf.datavector.sum = T) :
+    S dom r (fun τ => th.sem τ * qf.sem τ) + entropy T qf ≤ T * th.logsumexpAll := by
+  rw [entropy_eq T hr hq, logsumexpAll_eq hr hth]
+  simp only [S_eq]
+  rw [datavector_eq hr hq] at hnn hm
+  have := gibbs_list (cells (r.map dom.cfg)) (fun v => th.sem (asg r v)) (fun v => qf.sem (asg r v)) T hT
+    (fun v hv => hnn _ (List.mem_map_of_mem hv)) hm
+  have e : ((cells (r.map dom.cfg)).map (fun v => th.sem (asg r v) * qf.sem (asg r v))).sum
+      = ((cells (r.map dom.cfg)).map (fun v => qf.sem (asg r v) * th.sem (asg r v))).sum := by
+    congr 1
+    apply List.map_congr_left
+    intro v _
+    ring
+  rw [e]
+  linarith
+
+/-- strictness: equality in `gibbs_region` forces `q = T · softmax θ` cell-wise -/
+theorem gibbs_region_eq_imp (hr : RegOK dom r) {th qf : Factor ℝ} (hth : On dom r th) (hq : On dom r qf)
+    {T : ℝ} (hT : 0 < T) (hnn : ∀ v ∈ qf.datavector, 0 ≤ v) (hm : qf.datavector.sum = T)
+    (heq : S dom r (fun τ => th.sem τ * qf.sem τ) + entropy T qf = T * th.logsumexpAll) :
+    qf.datavector = (cells (r.map dom.cfg)).map (fun v =>
+      T * Real.exp (th.sem (asg r v)) / S dom r (fun τ => Real.exp (th.sem τ))) := by
+  rw [entropy_eq T hr hq, logsumexpAll_eq hr hth] at heq
+  simp only [S_eq] at heq ⊢
+  rw [datavector_eq hr hq] at hnn hm ⊢
+  have e : ((cells (r.map dom.cfg)).map (fun v => th.sem (asg r v) * qf.sem (asg r v))).sum
+      = ((cells (r.map dom.cfg)).map (fun v => qf.sem (asg r v) * th.sem (asg r v))).sum := by
+    congr 1
+    apply List.map_congr_left
+    intro v _
+    ring
+  rw [e] at heq
+  have := gibbs_list_eq (cells (r.map dom.cfg)) (fun v => th.sem (asg r v)) (fun v => qf.sem (asg r v)) T hT
+    (fun v hv => hnn _ (List.mem_map_of_mem hv)) hm (by linarith)
+  exact List.map_congr_left this
+
+end gibbs
+
+/-! ## `normalise` -/
+
+theorem iaddScalar_eq (f : Factor ℝ) (c : ℝ) (hf : f.WF) :
+    f.iaddScalar c = Factor.mk' f.dom (f.vals.map (fun v => Scalar.add v c)) := by
+  unfold Factor.iaddScalar Factor.mk' NdArr.reshape NdArr.map
+  simp only [hf.2.1]
+
+/-- `normalise T b` is a table on the same region, cell-wise `T · exp b / Σ exp b` -/
+theorem normalise_on {dom : Dom} {r : Region} (hd : dom.WF) (hsz : ∀ p ∈ dom, 0 < p.2)
+    (hr : RegOK dom r) {b : Factor ℝ} (hb : On dom r b) {T : ℝ} (hT : 0 < T)
+    (hZ : 0 < S dom r (fun τ => Real.exp (b.sem τ))) :
+    On dom r (normalise T b) ∧ ∀ σ, dom.Valid σ →
+      (normalise T b).sem σ = T * Real.exp (b.sem σ) / S dom r (fun τ => Real.exp (b.sem τ)) := by
+  unfold normalise
+  rw [iaddScalar_eq b _ hb.1]
+  have h1 : On dom r (Factor.mk' b.dom (b.vals.map
+      (fun v => Scalar.add v (Scalar.sub (Scalar.log T) b.logsumexpAll)))) := mapVals_on _ hb
+  refine ⟨mapVals_on _ h1, ?_⟩
+  intro σ hσ
+  show (Factor.mk' _ (NdArr.map Scalar.exp _)).sem σ = _
+  rw [sem_mapVals_ok _ hd (h1.factorOK hr) hσ, sem_mapVals_ok _ hd (hb.factorOK hr) hσ,
+    logsumexpAll_eq hr hb]
+  show Real.exp (b.sem σ + (Real.log T + -Real.log (S dom r fun τ => Real.exp (b.sem τ)))) = _
+  rw [Real.exp_add, Real.exp_add, Real.exp_neg, Real.exp_log hT, Real.exp_log hZ]
+  field_simp
+
+theorem S_exp_pos {dom : Dom} {r : Region} (F : (Attr → Nat) → ℝ) (hne : cells (r.map dom.cfg) ≠ []) :
+    0 < S dom r (fun τ => Real.exp (F τ)) := by
+  rw [S_eq]
+  exact sum_exp_pos _ (fun v => F (asg r v)) hne
+
+theorem cells_ne_nil {dom : Dom} {r : Region} (hd : dom.WF) (hsz : ∀ p ∈ dom, 0 < p.2)
+    (hr : RegOK dom r) : cells (r.map dom.cfg) ≠ [] := by
+  have h : List.replicate r.length 0 ∈ cells (r.map dom.cfg) := by
+    apply inRange_mem_cells
+    have : List.replicate r.length 0 = r.map (fun _ => 0) := by
+      simp
+    rw [this]
+    apply NdArr.inRange_map
+    intro a ha
+    exact hsz _ (Dom.mem_of_mem_attrs dom hd a (hr.2 a ha))
+  exact List.ne_nil_of_mem h
+
+/-- the soft-max attains equality in Gibbs' inequality -/
+theorem gibbs_region_softmax {dom : Dom} {r : Region} (hd : dom.WF) (hsz : ∀ p ∈ dom, 0 < p.2)
+    (hr : RegOK dom r) {th : Factor ℝ} (hth : On dom r th) {T : ℝ} (hT : 0 < T) :
+    S dom r (fun τ => th.sem τ * (normalise T th).sem τ) + entropy T (normalise T th)
+      = T * th.logsumexpAll := by
+  have hne := cells_ne_nil hd hsz hr
+  have hZ := S_exp_pos (dom := dom) (r := r) th.sem hne
+  obtain ⟨hn, hsem⟩ := normalise_on hd hsz hr hth hT hZ
+  rw [entropy_eq T hr hn, logsumexpAll_eq hr hth]
+  have e1 : S dom r (fun τ => th.sem τ * (normalise T th).sem τ)
+      = S dom r (fun τ => T * Real.exp (th.sem τ) / S dom r (fun τ => Real.exp (th.sem τ)) * th.sem τ) := by
+    apply S_congr dom hd hsz
+    intro τ hτ
+    rw [hsem τ hτ]; ring
+  have e2 : S dom r (fun τ => hent T ((normalise T th).sem τ))
+      = S dom r (fun τ => hent T (T * Real.exp (th.sem τ) / S dom r (fun τ => Real.exp (th.sem τ)))) := by
+    apply S_congr dom hd hsz
+    intro τ hτ
+    rw [hsem τ hτ]
+  rw [e1, e2]
+  have := gibbs_softmax (cells (r.map dom.cfg)) (fun v => th.sem (asg r v)) T hT hne
+  simp only [S_eq]
+  linarith
+
+/-! ## weak duality -/
+
+section duality
+variable {dom : Dom} {g : RG.Graph} {pot : Region → Factor ℝ} {msgs : Msgs ℝ} {T : ℝ} {q : CliqueVec ℝ}
+
+/-- `F(q) = Σ_r (⟨θ̃_r, q_r⟩ + H(q_r))` on locally consistent `q` -/
+theorem primalValue_tilde (hs : Shape dom g pot msgs) (hq : LocallyConsistent dom g T q) :
+    primalValue g pot T q = (g.regions.map (fun r =>
+      S dom r (fun τ => (thetaTilde g pot msgs r).sem τ * (q.get r).sem τ) + entropy T (q.get r))).sum := by
+  rw [primalValue_eq, List.sum_map_add, tilde_inner_sum hs hq]
+  congr 2
+  apply List.map_congr_left
+  intro r hr
+  exact mul_sumAll_eq hs.dom_wf hs.sizes (hs.regOK hr) (hs.pot_on hr) (hq.on hr)
+
+theorem dualValue_sum (g : RG.Graph) (pot : Region → Factor ℝ) (T : ℝ) (msgs : Msgs ℝ) :
+    dualValue g pot T msgs = (g.regions.map (fun r => T * (thetaTilde g pot msgs r).logsumexpAll)).sum := by
+  rw [dualValue_eq, List.sum_map_mul_left]
+
+end duality
 
 /-- **weak duality**: for every message vector and every locally consistent family `q`,
 `F(q) ≤ D(λ)` — the multiplier terms telescope on consistent `q`, each region term is Gibbs'
@@ -47,7 +353,41 @@ inequality -/
 theorem weak_duality (dom : Dom) (g : RG.Graph) (pot : Region → Factor ℝ) (T : ℝ) (msgs : Msgs ℝ)
     (q : CliqueVec ℝ) (hT : 0 < T) (hs : Shape dom g pot msgs) (hq : LocallyConsistent dom g T q) :
     primalValue g pot T q ≤ dualValue g pot T msgs := by
-  sorry
+  rw [primalValue_tilde hs hq, dualValue_sum]
+  apply List.sum_le_sum
+  intro r hr
+  exact gibbs_region (hs.regOK hr) (thetaTilde_on hs.toShape₀ hr).1 (hq.on hr) hT (hq.nonneg r hr) (hq.mass r hr)
+
+/-- **gap certificate**: for any feasible family `b̃`, the optimum of the variational problem
+exceeds `F(b̃)` by at most `D(λ) − F(b̃)` -/
+theorem gap_bound (dom : Dom) (g : RG.Graph) (pot : Region → Factor ℝ) (T : ℝ) (msgs : Msgs ℝ)
+    (b q : CliqueVec ℝ) (hT : 0 < T) (hs : Shape dom g pot msgs)
+    (hb : LocallyConsistent dom g T b) (hq : LocallyConsistent dom g T q) :
+    primalValue g pot T q - primalValue g pot T b ≤ dualValue g pot T msgs - primalValue g pot T b := by
+  have := weak_duality dom g pot T msgs q hT hs hq
+  linarith
+
+/-! ## strong duality at consistency -/
+
+theorem lookup_map_self {β : Type} (l : List Region) (F : Region → β) (r : Region) (hr : r ∈ l) :
+    (l.map (fun r => (r, F r))).lookup r = some (F r) := by
+  induction l with
+  | nil => simp at hr
+  | cons x xs ih =>
+    simp only [List.map_cons, List.lookup_cons]
+    by_cases hx : r = x
+    · subst hx; simp
+    · have : (r == x) = false := by simpa using hx
+      rw [this]
+      rcases List.mem_cons.mp hr with h | h
+      · exact absurd h hx
+      · exact ih h
+
+theorem lagrangianBeliefs_get (g : RG.Graph) (pot : Region → Factor ℝ) (T : ℝ) (msgs : Msgs ℝ)
+    {r : Region} (hr : r ∈ g.regions) :
+    (lagrangianBeliefs g pot T msgs).get r = normalise T (thetaTilde g pot msgs r) := by
+  unfold lagrangianBeliefs CliqueVec.get
+  rw [lookup_map_self g.regions _ r hr]
 
 /-- **strong duality at consistency**: if the beliefs `b(λ)` are themselves consistent along the
 edges, they attain the dual value, hence maximise `F` over all locally consistent families -/
@@ -56,14 +396,653 @@ theorem strong_at_consistency (dom : Dom) (g : RG.Graph) (pot : Region → Facto
     (hb : LocallyConsistent dom g T (lagrangianBeliefs g pot T msgs)) :
     primalValue g pot T (lagrangianBeliefs g pot T msgs) = dualValue g pot T msgs ∧
     ∀ q, LocallyConsistent dom g T q → primalValue g pot T q ≤ primalValue g pot T (lagrangianBeliefs g pot T msgs) := by
-  sorry
+  have h1 : primalValue g pot T (lagrangianBeliefs g pot T msgs) = dualValue g pot T msgs := by
+    rw [primalValue_tilde hs hb, dualValue_sum]
+    congr 1
+    apply List.map_congr_left
+    intro r hr
+    rw [lagrangianBeliefs_get g pot T msgs hr]
+    exact gibbs_region_softmax hs.dom_wf hs.sizes (hs.regOK hr) (thetaTilde_on hs.toShape₀ hr).1 hT
+  refine ⟨h1, ?_⟩
+  intro q hq
+  rw [h1]
+  exact weak_duality dom g pot T msgs q hT hs hq
 
-/-- **gap certificate**: for any feasible family `b̃`, the optimum of the variational problem
-exceeds `F(b̃)` by at most `D(λ) − F(b̃)` -/
-theorem gap_bound (dom : Dom) (g : RG.Graph) (pot : Region → Factor ℝ) (T : ℝ) (msgs : Msgs ℝ)
-    (b q : CliqueVec ℝ) (hT : 0 < T) (hs : Shape dom g pot msgs)
-    (hb : LocallyConsistent dom g T b) (hq : LocallyConsistent dom g T q) :
-    primalValue g pot T q - primalValue g pot T b ≤ dualValue g pot T msgs - primalValue g pot T b := by
-  sorry
+/-- **uniqueness** (strict Gibbs): a locally consistent family that attains the dual value is the
+Lagrangian belief family, table by table -/
+theorem unique_at_zero_gap (dom : Dom) (g : RG.Graph) (pot : Region → Factor ℝ) (T : ℝ) (msgs : Msgs ℝ)
+    (q : CliqueVec ℝ) (hT : 0 < T) (hs : Shape dom g pot msgs) (hq : LocallyConsistent dom g T q)
+    (heq : primalValue g pot T q = dualValue g pot T msgs) :
+    ∀ r ∈ g.regions, (q.get r).datavector = ((lagrangianBeliefs g pot T msgs).get r).datavector := by
+  rw [primalValue_tilde hs hq, dualValue_sum] at heq
+  have hterm := eq_of_sum_eq_of_le g.regions _ _
+    (fun r hr => gibbs_region (hs.regOK hr) (thetaTilde_on hs.toShape₀ hr).1 (hq.on hr) hT
+      (hq.nonneg r hr) (hq.mass r hr)) heq
+  intro r hr
+  have hrk := hs.regOK hr
+  have hth := (thetaTilde_on hs.toShape₀ hr).1
+  rw [gibbs_region_eq_imp hrk hth (hq.on hr) hT (hq.nonneg r hr) (hq.mass r hr) (hterm r hr),
+    lagrangianBeliefs_get g pot T msgs hr]
+  have hne := cells_ne_nil hs.dom_wf hs.sizes hrk
+  have hZ := S_exp_pos (dom := dom) (r := r) (thetaTilde g pot msgs r).sem hne
+  obtain ⟨hn, hsem⟩ := normalise_on hs.dom_wf hs.sizes hrk hth hT hZ
+  rw [datavector_eq hrk hn]
+  apply List.map_congr_left
+  intro v hv
+  rw [hsem _ (valid_asg dom hs.dom_wf hs.sizes r v hv)]
+
+/-! ## the beliefs returned by a sweep are the Lagrangian beliefs -/
+
+/-- a graph whose region list repeats a region -/
+def gDup : RG.Graph :=
+  { regions := [[], []], cliques := [], children := [], parents := [], descendants := [],
+    ancestors := [], children0 := [], parents0 := [], counting := [], N := [], D := [], B := [],
+    messageOrder := [] }
+
+/-- the statement as first written (no hypothesis on `g`) is false: on a region list with a
+repeated region the belief *dictionary* has one entry per key, `lagrangianBeliefs` has one per
+list element -/
+theorem belief_lagrangian_form_needs_nodup :
+    ¬ ∀ (g : RG.Graph) (pot : Region → Factor ℝ) (T rho : ℝ) (msgs : Msgs ℝ),
+      (hpsSweep g pot (fun _ => 1) T rho msgs).2.map (fun p => (p.1, p.2.datavector))
+        = (lagrangianBeliefs g pot T (hpsSweep g pot (fun _ => 1) T rho msgs).1).map
+            (fun p => (p.1, p.2.datavector)) := by
+  intro h
+  have := congrArg List.length (h gDup (fun _ => Factor.zeros []) 1 0 [])
+  rw [hpsSweep_snd] at this
+  simp [beliefsOf, lagrangianBeliefs, gDup, CliqueVec.set] at this
+
+/-- the returned beliefs depend on the messages only through the upward messages and are
+`total · softmax(θ̃_r)`: the model's last step of every sweep *is* `lagrangianBeliefs` (unit counting
+numbers).  CORRECTED: needs `g.regions.Nodup` (`belief_lagrangian_form_needs_nodup`); no other
+hypothesis on the graph, the potentials or the messages. -/
+theorem belief_lagrangian_form (g : RG.Graph) (pot : Region → Factor ℝ) (T rho : ℝ) (msgs : Msgs ℝ)
+    (hnd : g.regions.Nodup) :
+    (hpsSweep g pot (fun _ => 1) T rho msgs).2.map (fun p => (p.1, p.2.datavector))
+      = (lagrangianBeliefs g pot T (hpsSweep g pot (fun _ => 1) T rho msgs).1).map (fun p => (p.1, p.2.datavector)) := by
+  rw [hpsSweep_snd, beliefsOf_eq_map _ _ _ _ _ hnd]
+  unfold lagrangianBeliefs
+  rw [List.map_map, List.map_map]
+  apply List.map_congr_left
+  intro r _
+  show (r, (normalise T ((thetaTilde g pot _ r).divScalar 1)).datavector) = (r, _)
+  rw [normalise_divScalar_one]
+
+/-! ## `Shape` is an invariant of the sweeps
+
+The upward update reads the *downward* messages (`messages[p, r]`), so the invariant has to include
+their layout as well (`MsgsDown`); both hold for `initMessages` (`initMessages_shape`). -/
+
+/-- the downward messages are laid out on the child regions -/
+structure MsgsDown (dom : Dom) (g : RG.Graph) (msgs : Msgs ℝ) : Prop where
+  down_ok : ∀ p ∈ g.regions, ∀ c ∈ look g.children p,
+    (msgs.get (p, c)).WF ∧ (msgs.get (p, c)).dom = dom.project c
+
+section preserve
+variable {dom : Dom} {g : RG.Graph} {pot : Region → Factor ℝ} {msgs : Msgs ℝ}
+
+theorem Shape₀.graphOK (hs : Shape₀ dom g pot msgs) : GraphOK dom g pot :=
+  ⟨hs.dom_wf, hs.region_ok, hs.pot_ok, hs.children_sub, hs.parents_dual⟩
+
+theorem Shape₀.keyOn (hs : Shape₀ dom g pot msgs) (hd : MsgsDown dom g msgs) :
+    ∀ k, KeyOn dom g k (msgs.get k) := by
+  intro k p hp c hc hk
+  rcases hk with rfl | rfl
+  · exact hd.down_ok p hp c hc
+  · exact hs.msg_ok p hp c hc
+
+/-- **`Shape` (with the layout of the downward messages) is preserved by a sweep**, for every
+counting-number function, total and damping factor -/
+theorem shape_preserved (hs : Shape dom g pot msgs) (hd : MsgsDown dom g msgs)
+    (c0 : Region → ℝ) (T rho : ℝ) :
+    Shape dom g pot (hpsSweep g pot c0 T rho msgs).1 ∧ MsgsDown dom g (hpsSweep g pot c0 T rho msgs).1 := by
+  have hk := sweep_keyOn hs.graphOK c0 rho (hs.keyOn hd)
+  rw [hpsSweep_fst]
+  refine ⟨⟨⟨hs.dom_wf, hs.sizes, hs.regions_nodup, hs.region_ok, hs.pot_ok, hs.children_sub,
+    hs.parents_dual, hs.children_nodup, ?_⟩, hs.parents_nodup⟩, ⟨?_⟩⟩
+  · intro p hp c hc
+    exact hk (c, p) p hp c hc (Or.inr rfl)
+  · intro p hp c hc
+    exact hk (p, c) p hp c hc (Or.inl rfl)
+
+/-- any number of sweeps -/
+theorem shape_preserved_iterate (hs : Shape dom g pot msgs) (hd : MsgsDown dom g msgs)
+    (c0 : Region → ℝ) (T rho : ℝ) (n : Nat) :
+    Shape dom g pot (iterate (fun m => (hpsSweep g pot c0 T rho m).1) n msgs) ∧
+      MsgsDown dom g (iterate (fun m => (hpsSweep g pot c0 T rho m).1) n msgs) := by
+  induction n generalizing msgs with
+  | zero => exact ⟨hs, hd⟩
+  | succ n ih =>
+    obtain ⟨h1, h2⟩ := shape_preserved hs hd c0 T rho
+    exact ih h1 h2
+
+end preserve
+
+/-! ### the initial messages -/
+
+theorem zeros_on {dom : Dom} {c : Region} (hc : RegOK dom c) : On dom c (Factor.zeros (dom.project c)) := by
+  refine ⟨⟨?_, rfl, ?_⟩, rfl⟩
+  · show (dom.project c).attrs.Nodup
+    rw [Dom.attrs_project]; exact hc.1
+  · show (Array.replicate (size (dom.project c).shape) (Scalar.zero : ℝ)).size = size (dom.project c).shape
+    simp
+
+/-- the entry of `initMessages` under a key that some edge of the order names (in either direction)
+is the zero table on the child region of the *first* such edge -/
+theorem initMessages_get (dom : Dom) (order : List Edge) (k : Edge)
+    (h : ∃ e ∈ order, k = (e.1, e.2) ∨ k = (e.2, e.1)) :
+    ∃ e ∈ order, (k = (e.1, e.2) ∨ k = (e.2, e.1)) ∧
+      Msgs.get (initMessages dom order : Msgs ℝ) k = Factor.zeros (dom.project e.2) := by
+  induction order with
+  | nil => obtain ⟨e, he, _⟩ := h; simp at he
+  | cons e0 rest ih =>
+    by_cases h1 : k = (e0.1, e0.2)
+    · refine ⟨e0, List.mem_cons_self, Or.inl h1, ?_⟩
+      subst h1
+      simp [initMessages, Msgs.get]
+    · by_cases h2 : k = (e0.2, e0.1)
+      · refine ⟨e0, List.mem_cons_self, Or.inr h2, ?_⟩
+        have e1 : (k == (e0.1, e0.2)) = false := by simpa using h1
+        subst h2
+        simp only [initMessages, Msgs.get, List.flatMap_cons, List.cons_append, List.nil_append,
+          List.lookup_cons, e1]
+        simp
+      · have hrest : ∃ e ∈ rest, k = (e.1, e.2) ∨ k = (e.2, e.1) := by
+          obtain ⟨e, he, hk⟩ := h
+          rcases List.mem_cons.mp he with rfl | he
+          · rcases hk with hk | hk
+            · exact absurd hk h1
+            · exact absurd hk h2
+          · exact ⟨e, he, hk⟩
+        obtain ⟨e, he, hk, hget⟩ := ih hrest
+        refine ⟨e, List.mem_cons_of_mem _ he, hk, ?_⟩
+        have e1 : (k == (e0.1, e0.2)) = false := by simpa using h1
+        have e2 : (k == (e0.2, e0.1)) = false := by simpa using h2
+        rw [← hget]
+        simp only [initMessages, Msgs.get, List.flatMap_cons, List.cons_append, List.nil_append,
+          List.lookup_cons, e1, e2]
+
+/-- **the initial messages satisfy `msg_ok` and `MsgsDown`** when the message order lists exactly
+the edges of the graph and no edge is listed in both directions (true for `RG.build`: edges go from
+a region to a *strict* subset) -/
+theorem initMessages_shape {dom : Dom} {g : RG.Graph} {pot : Region → Factor ℝ}
+    (hg : GraphOK dom g pot)
+    (hord : ∀ e ∈ g.messageOrder, e.1 ∈ g.regions ∧ e.2 ∈ look g.children e.1)
+    (hall : ∀ p ∈ g.regions, ∀ c ∈ look g.children p, (p, c) ∈ g.messageOrder)
+    (hanti : ∀ p ∈ g.regions, ∀ c ∈ look g.children p, p ∉ look g.children c) :
+    (∀ p ∈ g.regions, ∀ c ∈ look g.children p,
+      (Msgs.get (initMessages dom g.messageOrder : Msgs ℝ) (c, p)).WF ∧
+      (Msgs.get (initMessages dom g.messageOrder : Msgs ℝ) (c, p)).dom = dom.project c) ∧
+    MsgsDown dom g (initMessages dom g.messageOrder) := by
+  have key : ∀ p ∈ g.regions, ∀ c ∈ look g.children p, ∀ k, (k = (p, c) ∨ k = (c, p)) →
+      On dom c (Msgs.get (initMessages dom g.messageOrder : Msgs ℝ) k) := by
+    intro p hp c hc k hk
+    have hcR := (hg.children_sub p hp c hc).1
+    obtain ⟨e, he, hke, hget⟩ := initMessages_get dom g.messageOrder k
+      ⟨(p, c), hall p hp c hc, by rcases hk with h | h <;> simp [h]⟩
+    rw [hget]
+    obtain ⟨he1, he2⟩ := hord e he
+    have : e.2 = c := by
+      rcases hk with rfl | rfl <;> rcases hke with h | h
+      · exact (Prod.mk.inj h).2.symm
+      · obtain ⟨h1, h2⟩ := Prod.mk.inj h
+        rw [← h1, ← h2] at he2
+        exact absurd he2 (hanti p hp c hc)
+      · obtain ⟨h1, h2⟩ := Prod.mk.inj h
+        rw [← h1, ← h2] at he2
+        exact absurd he2 (hanti p hp c hc)
+      · exact (Prod.mk.inj h).1.symm
+    rw [this]
+    exact zeros_on (hg.region_ok c hcR)
+  exact ⟨fun p hp c hc => key p hp c hc (c, p) (Or.inr rfl),
+    ⟨fun p hp c hc => key p hp c hc (p, c) (Or.inl rfl)⟩⟩
+
+/-! ### `Shape` alone is not an invariant
+
+One parent `{a}` (size 1), one child `{}`; the downward message is laid out on the parent. -/
+
+def domX : Dom := [("a", 1)]
+
+def gX : RG.Graph :=
+  { regions := [["a"], []], cliques := [[], ["a"]],
+    children := [(["a"], [[]]), ([], [])],
+    parents := [(["a"], []), ([], [["a"]])],
+    descendants := [], ancestors := [], children0 := [], parents0 := [], counting := [], N := [],
+    D := [], B := [], messageOrder := [(["a"], [])] }
+
+noncomputable def potX (r : Region) : Factor ℝ := Factor.zeros (domX.project r)
+
+/-- upward message fine, downward message laid out on the *parent* -/
+noncomputable def msgsX : Msgs ℝ :=
+  [(([], ["a"]), Factor.zeros (domX.project [])), ((["a"], []), Factor.zeros (domX.project ["a"]))]
+
+theorem domX_bad : (Msgs.get (hpsSweep gX potX (fun _ => 1) 1 0 msgsX).1 ([], ["a"])).dom ≠ domX.project [] := by
+  decide
+
+theorem shapeX : Shape domX gX potX msgsX := by
+  refine ⟨⟨by decide, by decide, by decide, by decide, by decide, by decide, ?_, by decide, by decide⟩,
+    by decide⟩
+  intro r hr p
+  have hr' : r = ["a"] ∨ r = [] := by simpa [gX] using hr
+  have hp' : p ∈ gX.regions → p = ["a"] ∨ p = [] := fun h => by simpa [gX] using h
+  rcases hr' with rfl | rfl
+  · have e : look gX.parents ["a"] = [] := by decide
+    rw [e]
+    constructor
+    · intro h; simp at h
+    · rintro ⟨hp, hc⟩
+      rcases hp' hp with rfl | rfl
+      · exact absurd hc (by decide)
+      · exact absurd hc (by decide)
+  · have e : look gX.parents [] = [["a"]] := by decide
+    rw [e]
+    constructor
+    · intro h
+      have : p = ["a"] := by simpa using h
+      subst this
+      exact ⟨by decide, by decide⟩
+    · rintro ⟨hp, hc⟩
+      rcases hp' hp with rfl | rfl
+      · simp
+      · exact absurd hc (by decide)
+
+/-- **`Shape` alone is not an invariant of the sweep** (the statement
+`Shape dom g pot msgs → Shape dom g pot (hpsSweep …).1` is false): the upward update subtracts the
+downward message `messages[p, r]`, whose layout `Shape` does not constrain -/
+theorem shape_not_preserved_without_down :
+    ¬ ∀ (dom : Dom) (g : RG.Graph) (pot : Region → Factor ℝ) (msgs : Msgs ℝ) (T rho : ℝ),
+      Shape dom g pot msgs → Shape dom g pot (hpsSweep g pot (fun _ => 1) T rho msgs).1 := by
+  intro h
+  have := ((h domX gX potX msgsX 1 0 shapeX).msg_ok ["a"] (by decide) [] (by decide)).2
+  exact domX_bad this
+
+/-! ## the original hypotheses do not suffice: a parent listed twice
+
+`parents_dual` constrains membership only.  With `look g.parents r = [p, p]` the multiplier of the
+edge `(r, p)` is subtracted twice from `θ̃_r` and added once to `θ̃_p`, so `Σ_r ⟨θ̃_r, q_r⟩` is no
+longer `Σ_r ⟨θ_r, q_r⟩`.  Smallest instance: the empty domain, the single region `[]` (one cell)
+with a self-edge, `λ = 1`, `q = 1`, `T = 1`: `F(q) = 0` but `D(λ) = −1`. -/
+
+/-- one region `[]` over the empty domain, with a self-edge; the parent is listed twice -/
+def gLoop : RG.Graph :=
+  { regions := [[]], cliques := [[]], children := [([], [[]])], parents := [([], [[], []])],
+    descendants := [], ancestors := [], children0 := [], parents0 := [], counting := [], N := [],
+    D := [], B := [], messageOrder := [] }
+
+/-- the one-cell table with value `x` -/
+noncomputable def cell (x : ℝ) : Factor ℝ := ⟨[], ⟨[], #[x]⟩⟩
+
+theorem cell_sem (x : ℝ) (σ : Attr → Nat) : (cell x).sem σ = x := rfl
+
+theorem cell_on (x : ℝ) : On [] [] (cell x) := by
+  refine ⟨⟨?_, rfl, rfl⟩, rfl⟩
+  show (Dom.attrs ([] : Dom)).Nodup
+  simp [Dom.attrs]
+
+theorem look_children_loop : look gLoop.children [] = [[]] := rfl
+theorem look_parents_loop : look gLoop.parents [] = [[], []] := rfl
+
+theorem S_nil (F : (Attr → Nat) → ℝ) : S [] [] F = F (asg [] []) := by
+  simp [S_eq, cells]
+
+theorem shape0_loop : Shape₀ [] gLoop (fun _ => cell 0) [(([], []), cell 1)] := by
+  refine ⟨?_, ?_, ?_, ?_, ?_, ?_, ?_, ?_, ?_⟩
+  · show (Dom.attrs ([] : Dom)).Nodup
+    simp [Dom.attrs]
+  · intro p hp; simp at hp
+  · simp [gLoop]
+  · intro r hr
+    simp only [gLoop, List.mem_singleton] at hr
+    subst hr
+    simp
+  · intro r hr
+    simp only [gLoop, List.mem_singleton] at hr
+    subst hr
+    exact cell_on 0
+  · intro r hr c hc
+    simp only [gLoop, List.mem_singleton] at hr
+    subst hr
+    rw [look_children_loop] at hc
+    simp only [List.mem_singleton] at hc
+    subst hc
+    simp [gLoop]
+  · intro r hr p
+    simp only [gLoop, List.mem_singleton] at hr
+    subst hr
+    rw [look_parents_loop]
+    constructor
+    · intro hp
+      have : p = [] := by simpa using hp
+      subst this
+      exact ⟨by simp [gLoop], by rw [look_children_loop]; simp⟩
+    · rintro ⟨hp, _⟩
+      have : p = [] := by simpa [gLoop] using hp
+      subst this
+      simp
+  · intro r hr
+    simp only [gLoop, List.mem_singleton] at hr
+    subst hr
+    rw [look_children_loop]
+    simp
+  · intro p hp c hc
+    simp only [gLoop, List.mem_singleton] at hp
+    subst hp
+    rw [look_children_loop] at hc
+    simp only [List.mem_singleton] at hc
+    subst hc
+    exact cell_on 1
+
+
+theorem cell_proj (x : ℝ) : ((cell x).projectSum []).datavector = [0 + x] := rfl
+
+theorem lc_loop : LocallyConsistent [] gLoop 1 [([], cell 1)] := by
+  refine ⟨rfl, ?_, ?_, ?_, ?_⟩
+  · intro r hr
+    simp only [gLoop, List.mem_singleton] at hr
+    subst hr
+    exact cell_on 1
+  · intro r hr v hv
+    simp only [gLoop, List.mem_singleton] at hr
+    subst hr
+    have : v = 1 := by simpa [CliqueVec.get, cell, Factor.datavector] using hv
+    rw [this]; exact zero_le_one
+  · intro r hr
+    simp only [gLoop, List.mem_singleton] at hr
+    subst hr
+    simp [CliqueVec.get, cell, Factor.datavector]
+  · intro p hp c hc
+    simp only [gLoop, List.mem_singleton] at hp
+    subst hp
+    rw [look_children_loop] at hc
+    simp only [List.mem_singleton] at hc
+    subst hc
+    show ((cell 1).projectSum []).datavector = [1]
+    rw [cell_proj]; simp
+
+theorem primal_loop : primalValue gLoop (fun _ => cell 0) 1 [([], cell 1)] = 0 := by
+  rw [primalValue_eq]
+  show ([((cell 0).mul (cell 1)).sumAll]).sum + ([entropy 1 (cell 1)]).sum = 0
+  have hd : Dom.WF ([] : Dom) := by show (Dom.attrs ([] : Dom)).Nodup; simp [Dom.attrs]
+  have hsz : ∀ p ∈ ([] : Dom), 0 < p.2 := by intro p hp; simp at hp
+  have hr : RegOK ([] : Dom) [] := ⟨by simp, by simp⟩
+  rw [mul_sumAll_eq hd hsz hr (cell_on 0) (cell_on 1), entropy_eq 1 hr (cell_on 1), S_nil, S_nil]
+  simp [cell_sem, hent]
+
+theorem dual_loop : dualValue gLoop (fun _ => cell 0) 1 [(([], []), cell 1)] = -1 := by
+  rw [dualValue_eq]
+  show (1 : ℝ) * ([(thetaTilde gLoop (fun _ => cell 0) [(([], []), cell 1)] []).logsumexpAll]).sum = -1
+  have hr : RegOK ([] : Dom) [] := ⟨by simp, by simp⟩
+  obtain ⟨h1, h2⟩ := thetaTilde_on shape0_loop (r := []) (by simp [gLoop])
+  have hv : Dom.Valid ([] : Dom) (asg [] []) := by intro p hp; simp at hp
+  rw [logsumexpAll_eq hr h1, S_nil, h2 _ hv, look_children_loop, look_parents_loop]
+  show (1 : ℝ) * [Real.log (Real.exp ((cell 0).sem _ + [(cell 1).sem _].sum - [(cell 1).sem _, (cell 1).sem _].sum))].sum = -1
+  simp only [cell_sem, List.sum_cons, List.sum_nil, Real.log_exp]
+  norm_num
+
+/-- **weak duality is false under the original hypotheses** (`Shape₀`, i.e. without
+`parents_nodup`): a parent listed twice is subtracted twice -/
+theorem weak_duality_needs_parents_nodup :
+    ¬ ∀ (dom : Dom) (g : RG.Graph) (pot : Region → Factor ℝ) (T : ℝ) (msgs : Msgs ℝ) (q : CliqueVec ℝ),
+      0 < T → Shape₀ dom g pot msgs → LocallyConsistent dom g T q →
+      primalValue g pot T q ≤ dualValue g pot T msgs := by
+  intro h
+  have := h [] gLoop (fun _ => cell 0) 1 [(([], []), cell 1)] [([], cell 1)] one_pos shape0_loop lc_loop
+  rw [primal_loop, dual_loop] at this
+  linarith
+
+/-! ## non-vacuity: a concrete `Shape` and a concrete `LocallyConsistent` family
+
+`dom = [a:2, b:2]`, regions `{a,b}` and `{a}`, one edge, zero potentials, the initial (zero)
+messages, and the uniform tables of mass 4. -/
+
+def domAB : Dom := [("a", 2), ("b", 2)]
+
+def gAB : RG.Graph :=
+  { regions := [["a", "b"], ["a"]], cliques := [["a"], ["a", "b"]],
+    children := [(["a", "b"], [["a"]]), (["a"], [])],
+    parents := [(["a", "b"], []), (["a"], [["a", "b"]])],
+    descendants := [], ancestors := [], children0 := [], parents0 := [], counting := [], N := [],
+    D := [], B := [], messageOrder := [(["a", "b"], ["a"])] }
+
+theorem look_children_ab : look gAB.children ["a", "b"] = [["a"]] := by decide
+theorem look_children_a : look gAB.children ["a"] = [] := by decide
+theorem look_parents_ab : look gAB.parents ["a", "b"] = [] := by decide
+theorem look_parents_a : look gAB.parents ["a"] = [["a", "b"]] := by decide
+
+noncomputable def tAB (x : ℝ) : Factor ℝ := ⟨domAB.project ["a", "b"], ⟨[2, 2], #[x, x, x, x]⟩⟩
+noncomputable def tA (x : ℝ) : Factor ℝ := ⟨domAB.project ["a"], ⟨[2], #[x, x]⟩⟩
+
+theorem domAB_wf : domAB.WF := by decide
+theorem domAB_sizes : ∀ p ∈ domAB, 0 < p.2 := by decide
+theorem regOK_ab : RegOK domAB ["a", "b"] := by unfold RegOK; decide
+theorem regOK_a : RegOK domAB ["a"] := by unfold RegOK; decide
+
+theorem tAB_on (x : ℝ) : On domAB ["a", "b"] (tAB x) := by
+  refine ⟨⟨?_, ?_, ?_⟩, rfl⟩
+  · show (domAB.project ["a", "b"]).WF
+    decide
+  · show [2, 2] = (domAB.project ["a", "b"]).shape
+    decide
+  · show (4 : Nat) = size [2, 2]
+    rfl
+
+theorem tA_on (x : ℝ) : On domAB ["a"] (tA x) := by
+  refine ⟨⟨?_, ?_, ?_⟩, rfl⟩
+  · show (domAB.project ["a"]).WF
+    decide
+  · show [2] = (domAB.project ["a"]).shape
+    decide
+  · show (2 : Nat) = size [2]
+    rfl
+
+theorem tAB_sem (x : ℝ) (σ : Attr → Nat) (ha : σ "a" < 2) (hb : σ "b" < 2) : (tAB x).sem σ = x := by
+  have h : (tAB x).sem σ = (#[x, x, x, x] : Array ℝ).getD (σ "a" * (2 * 1) + (σ "b" * 1 + 0)) default := rfl
+  rw [h]
+  generalize σ "a" = i at ha
+  generalize σ "b" = j at hb
+  have hi : i = 0 ∨ i = 1 := by omega
+  have hj : j = 0 ∨ j = 1 := by omega
+  rcases hi with rfl | rfl <;> rcases hj with rfl | rfl <;> rfl
+
+theorem tA_sem (x : ℝ) (σ : Attr → Nat) (ha : σ "a" < 2) : (tA x).sem σ = x := by
+  have h : (tA x).sem σ = (#[x, x] : Array ℝ).getD (σ "a" * 1 + 0) default := rfl
+  rw [h]
+  generalize σ "a" = i at ha
+  have hi : i = 0 ∨ i = 1 := by omega
+  rcases hi with rfl | rfl <;> rfl
+
+
+theorem mem_regions_ab {r : Region} (hr : r ∈ gAB.regions) : r = ["a", "b"] ∨ r = ["a"] := by
+  simpa [gAB] using hr
+
+/-- the potentials of the example: all zero -/
+noncomputable def potAB (r : Region) : Factor ℝ := Factor.zeros (domAB.project r)
+
+theorem graphOK_ab : GraphOK domAB gAB potAB := by
+  refine ⟨domAB_wf, ?_, ?_, ?_, ?_⟩
+  · intro r hr
+    rcases mem_regions_ab hr with rfl | rfl
+    · exact regOK_ab
+    · exact regOK_a
+  · intro r hr
+    rcases mem_regions_ab hr with rfl | rfl
+    · exact zeros_on regOK_ab
+    · exact zeros_on regOK_a
+  · decide
+  · intro r hr p
+    rcases mem_regions_ab hr with rfl | rfl
+    · rw [look_parents_ab]
+      constructor
+      · intro h; simp at h
+      · rintro ⟨hp, hc⟩
+        rcases mem_regions_ab hp with rfl | rfl
+        · rw [look_children_ab] at hc; exact absurd hc (by decide)
+        · rw [look_children_a] at hc; simp at hc
+    · rw [look_parents_a]
+      constructor
+      · intro h
+        have : p = ["a", "b"] := by simpa using h
+        subst this
+        exact ⟨by decide, by decide⟩
+      · rintro ⟨hp, hc⟩
+        rcases mem_regions_ab hp with rfl | rfl
+        · simp
+        · rw [look_children_a] at hc; simp at hc
+
+/-- **non-vacuity of `Shape`** (and of `MsgsDown`): the two-region graph `{a,b} → {a}` with zero
+potentials and the initial messages -/
+theorem shape_ab : Shape domAB gAB potAB (initMessages domAB gAB.messageOrder) ∧
+    MsgsDown domAB gAB (initMessages domAB gAB.messageOrder) := by
+  have hg := graphOK_ab
+  obtain ⟨hup, hdown⟩ := initMessages_shape hg (by decide) (by decide) (by decide)
+  exact ⟨⟨⟨domAB_wf, domAB_sizes, by decide, hg.region_ok, hg.pot_ok, hg.children_sub, hg.parents_dual,
+    by decide, hup⟩, by decide⟩, hdown⟩
+
+/-- the uniform tables of mass 4 -/
+noncomputable def qAB : CliqueVec ℝ := [(["a", "b"], tAB 1), (["a"], tA 2)]
+
+theorem qAB_get_ab : qAB.get ["a", "b"] = tAB 1 := rfl
+theorem qAB_get_a : qAB.get ["a"] = tA 2 := rfl
+
+theorem valid_ab {σ : Attr → Nat} (hσ : domAB.Valid σ) : σ "a" < 2 ∧ σ "b" < 2 :=
+  ⟨hσ ("a", 2) (by decide), hσ ("b", 2) (by decide)⟩
+
+/-- **non-vacuity of `LocallyConsistent`** -/
+theorem lc_ab : LocallyConsistent domAB gAB 4 qAB := by
+  refine ⟨rfl, ?_, ?_, ?_, ?_⟩
+  · intro r hr
+    rcases mem_regions_ab hr with rfl | rfl
+    · exact tAB_on 1
+    · exact tA_on 2
+  · intro r hr v hv
+    rcases mem_regions_ab hr with rfl | rfl
+    · have : v = 1 := by simpa [qAB_get_ab, tAB, Factor.datavector] using hv
+      rw [this]; exact zero_le_one
+    · have : v = 2 := by simpa [qAB_get_a, tA, Factor.datavector] using hv
+      rw [this]; norm_num
+  · intro r hr
+    rcases mem_regions_ab hr with rfl | rfl
+    · show ([1, 1, 1, 1] : List ℝ).sum = 4
+      norm_num
+    · show ([2, 2] : List ℝ).sum = 4
+      norm_num
+  · intro p hp c hc
+    rcases mem_regions_ab hp with rfl | rfl
+    · rw [look_children_ab] at hc
+      have : c = ["a"] := by simpa using hc
+      subst this
+      rw [qAB_get_ab, qAB_get_a]
+      have hsub : ∀ a ∈ (["a"] : Region), a ∈ (["a", "b"] : Region) := by decide
+      apply datavector_ext domAB_wf domAB_sizes regOK_a
+        (projectSum_on regOK_ab regOK_a hsub (tAB_on 1)) (tA_on 2)
+      intro σ hσ
+      obtain ⟨ha, hb⟩ := valid_ab hσ
+      rw [projectSum_sem domAB_wf regOK_ab regOK_a hsub (tAB_on 1) hσ, tA_sem 2 σ ha]
+      have e1 : (["a", "b"] : Region).filter (fun a => !(["a"] : Region).contains a) = ["b"] := by decide
+      have e2 : domAB.cfg "b" = 2 := by decide
+      rw [e1, sumOver_single, e2]
+      show [(tAB 1).sem (Dom.override σ ["b"] [0]), (tAB 1).sem (Dom.override σ ["b"] [1])].sum = 2
+      have o1 : ∀ i, Dom.override σ ["b"] [i] "a" = σ "a" := fun i =>
+        override_of_not_mem σ ["b"] [i] "a" (by decide)
+      have o2 : ∀ i, Dom.override σ ["b"] [i] "b" = i := fun i => by
+        rw [override_of_mem σ ["b"] [i] "b" (by decide)]; rfl
+      rw [tAB_sem 1 _ (by rw [o1]; exact ha) (by rw [o2]; omega),
+        tAB_sem 1 _ (by rw [o1]; exact ha) (by rw [o2]; omega)]
+      norm_num
+    · rw [look_children_a] at hc; simp at hc
+
+/-- the theorems apply: on the example, `F(q) ≤ D(0)` -/
+example : primalValue gAB potAB 4 qAB ≤ dualValue gAB potAB 4 (initMessages domAB gAB.messageOrder) :=
+  weak_duality domAB gAB potAB 4 _ qAB (by norm_num) shape_ab.1 lc_ab
+
+/-! ## the hypotheses hold for the graphs of `RG.build`, and the certificate holds for `hps`'s output -/
+
+/-- **`Shape` (and `MsgsDown`) hold for every `RG.build` graph with the initial messages**: the only
+assumptions are on the inputs — a well-formed domain with positive sizes, cliques that are
+duplicate-free lists of attributes of the domain, and potentials laid out on the regions -/
+theorem build_shape (dom : Dom) (cliques : List Region) (convex minimal : Bool) (pot : Region → Factor ℝ)
+    (hd : dom.WF) (hsz : ∀ p ∈ dom, 0 < p.2) (hcl : ∀ c ∈ cliques, c.Nodup ∧ ∀ a ∈ c, a ∈ dom.attrs)
+    (hpot : ∀ r ∈ (RG.build cliques convex minimal).regions, (pot r).WF ∧ (pot r).dom = dom.project r) :
+    Shape dom (RG.build cliques convex minimal) pot
+        (initMessages dom (RG.build cliques convex minimal).messageOrder) ∧
+      MsgsDown dom (RG.build cliques convex minimal)
+        (initMessages dom (RG.build cliques convex minimal).messageOrder) := by
+  obtain ⟨hnd, hreg, hb⟩ := build_ok dom cliques convex minimal hcl
+  have hg : GraphOK dom (RG.build cliques convex minimal) pot :=
+    ⟨hd, hreg, hpot, hb.children_sub, hb.parents_dual⟩
+  obtain ⟨hup, hdown⟩ := initMessages_shape hg hb.order_sound hb.order_complete hb.antisymm
+  exact ⟨⟨⟨hd, hsz, hnd, hreg, hpot, hb.children_sub, hb.parents_dual, hb.children_nodup, hup⟩,
+    hb.parents_nodup⟩, hdown⟩
+
+/-- `potOf` is laid out on the regions when the potential vector is -/
+theorem potOf_ok (dom : Dom) (g : RG.Graph) (potentials : CliqueVec ℝ)
+    (hreg : ∀ r ∈ g.regions, RegOK dom r)
+    (hp : ∀ r ∈ g.regions, (potentials.get r).WF ∧ (potentials.get r).dom = dom.project r) :
+    ∀ r ∈ g.regions, (potOf dom g potentials r).WF ∧ (potOf dom g potentials r).dom = dom.project r := by
+  intro r hr
+  unfold potOf
+  split
+  · exact hp r hr
+  · exact zeros_on (hreg r hr)
+
+/-- the state returned by the loop is the result of a sweep applied to an iterate of the sweep -/
+theorem hpsLoop_spec (g : RG.Graph) (pot : Region → Factor ℝ) (c0 : Region → ℝ) (T rho conv : ℝ)
+    (n : Nat) (hn : 0 < n) (done : Nat) (msgs : Msgs ℝ) (mu : CliqueVec ℝ) :
+    ∃ k, (hpsLoop g pot c0 T rho conv n done msgs mu).1
+          = (hpsSweep g pot c0 T rho (iterate (fun m => (hpsSweep g pot c0 T rho m).1) k msgs)).2 ∧
+      (hpsLoop g pot c0 T rho conv n done msgs mu).2.1
+          = (hpsSweep g pot c0 T rho (iterate (fun m => (hpsSweep g pot c0 T rho m).1) k msgs)).1 := by
+  induction n generalizing done msgs mu with
+  | zero => omega
+  | succ n ih =>
+    unfold hpsLoop
+    simp only
+    split
+    · exact ⟨0, rfl, rfl⟩
+    · rcases Nat.eq_zero_or_pos n with h0 | hpos
+      · subst h0
+        exact ⟨0, rfl, rfl⟩
+      · obtain ⟨k, h1, h2⟩ := ih hpos (done + 1) (hpsSweep g pot c0 T rho msgs).1
+          (hpsSweep g pot c0 T rho msgs).2
+        exact ⟨k + 1, h1, h2⟩
+
+/-- **the certificate for the convex oracle as run**: for `g = RG.build cliques true minimal`, the
+messages `λ` and beliefs `b` returned by `hazan_peng_shashua` started from the initial messages
+satisfy (1) `b = b(λ)` table by table, (2) `F(q) ≤ D(λ)` for every locally consistent `q`, hence
+(3) if `b` is locally consistent it is optimal with zero gap -/
+theorem hps_certificate (dom : Dom) (cliques : List Region) (minimal : Bool) (potentials : CliqueVec ℝ)
+    (T rho conv : ℝ) (iters : Nat) (hT : 0 < T) (hit : 0 < iters)
+    (hd : dom.WF) (hsz : ∀ p ∈ dom, 0 < p.2) (hcl : ∀ c ∈ cliques, c.Nodup ∧ ∀ a ∈ c, a ∈ dom.attrs)
+    (hp : ∀ r ∈ (RG.build cliques true minimal).regions,
+      (potentials.get r).WF ∧ (potentials.get r).dom = dom.project r) :
+    let g := RG.build cliques true minimal
+    let pot := potOf dom g potentials
+    let out := RG.hps dom g (fun _ => 1) potentials T iters rho conv (initMessages dom g.messageOrder)
+    out.1.map (fun p => (p.1, p.2.datavector))
+        = (lagrangianBeliefs g pot T out.2.1).map (fun p => (p.1, p.2.datavector)) ∧
+    Shape dom g pot out.2.1 ∧
+    (∀ q, LocallyConsistent dom g T q → primalValue g pot T q ≤ dualValue g pot T out.2.1) ∧
+    (LocallyConsistent dom g T (lagrangianBeliefs g pot T out.2.1) →
+      primalValue g pot T (lagrangianBeliefs g pot T out.2.1) = dualValue g pot T out.2.1) := by
+  intro g pot out
+  obtain ⟨hnd, hreg, _⟩ := build_ok dom cliques true minimal hcl
+  obtain ⟨hs0, hd0⟩ := build_shape dom cliques true minimal pot hd hsz hcl
+    (potOf_ok dom g potentials hreg hp)
+  obtain ⟨k, h1, h2⟩ := hpsLoop_spec g pot (fun _ => 1) T rho conv iters hit 0
+    (initMessages dom g.messageOrder) []
+  have hout1 : out.1 = (hpsSweep g pot (fun _ => 1) T rho
+      (iterate (fun m => (hpsSweep g pot (fun _ => 1) T rho m).1) k (initMessages dom g.messageOrder))).2 := h1
+  have hout2 : out.2.1 = (hpsSweep g pot (fun _ => 1) T rho
+      (iterate (fun m => (hpsSweep g pot (fun _ => 1) T rho m).1) k (initMessages dom g.messageOrder))).1 := h2
+  obtain ⟨hsk, hdk⟩ := shape_preserved_iterate hs0 hd0 (fun _ => 1) T rho k
+  have hs : Shape dom g pot out.2.1 := by
+    rw [hout2]; exact (shape_preserved hsk hdk (fun _ => 1) T rho).1
+  refine ⟨?_, hs, ?_, ?_⟩
+  · rw [hout1, hout2]
+    exact belief_lagrangian_form g pot T rho _ hnd
+  · intro q hq
+    exact weak_duality dom g pot T _ q hT hs hq
+  · intro hb
+    exact (strong_at_consistency dom g pot T _ hT hs hb).1
 
 end PGM.Convex
